@@ -112,7 +112,7 @@ def rule_lists(ctx: Ctx):
     rep.note_fn(evp)
     for fn, it_want, what in ((ae, "self.current_state.transitions.unique_events", "allowed_events lists the unique events of the current state's transitions"),
                               (evp, "self.__class__._events", "events lists every declared event of the class")):
-        for p in ctx.paths(fn, inline=None, exc_edges="none"):
+        for p in ctx.paths(fn, inline=None, exc_edges="none", comps_for_loops=True):
             v = expand(p.value, p.events) if p.kind == "return" else None
             ok = isinstance(v, ast.ListComp) and len(v.generators) == 1 and not v.generators[0].ifs and show(v.generators[0].iter) == it_want
             if ok:
@@ -122,7 +122,7 @@ def rule_lists(ctx: Ctx):
     ue = ctx.p.find_fn("TransitionList.unique_events")
     rep.note_fn(ue)
     n = 0
-    for p in ctx.paths(ue, inline=None, exc_edges="none", unroll=1):
+    for p in ctx.paths(ue, inline=None, exc_edges="none", unroll=1, comps_for_loops=True):
         evs = p.events
         if p.kind != "return":
             continue
